@@ -8,6 +8,15 @@ TRUSTED_BASE = [
 ]
 
 TABLE = {
+    "C09": {
+        "obligations": ["C09_metadata", "C09_metadata_long_topic", "C09_unencodable_client_id", "C09_offsets", "C09_list_offsets",
+                        "C09_group_coordinator", "C09_offset_fetch", "C09_offset_commit", "C09_fetch", "C09_produce",
+                        "C09_frame", "C09_no_frame_on_error", "C09_correlation", "C09_parse_back"],
+        "what": "Theorems: (1) Spec.parseRequest_encRequest - the specification's request grammar (parsers per API key and version, strict about trailing bytes) inverts the specification encoder on every well-formed request of all seven APIs (commit v0/v1/v2, offsets v0/v1); (2) for each request type the model's ToByte encoder (mirror of the Rust impls) equals that specification encoder applied to the request's abstract content, for any number of topics/partitions and any list (hash-map) order; (3) a string that does not fit its i16 length makes the encoder fail and frameOf produces no frame; (4) the frame's length prefix is the payload length; (5) correlation ids strictly increase below the documented wrap at 2^30. Correspondence + judge: every frame the real client writes for every public operation is parsed by Spec.parseFrame and compared with what was asked (offsets, times, max/min bytes, max wait, acks, timeout, group, versions per storage), restricted to the partitions led by the addressed broker.",
+        "rule": "scenario = random cluster (up to 40 partitions / 30 extra topics) + client with random settings (client id of length 0/1/5/32767/32768, fetch settings, storage) + 2-10 public operations with generated arguments (names of length 0/32767/32768/40000, unknown names, i32/i64 extremes, empty lists, out-of-range partitions); non-trivial = at least one request frame was emitted; distinct = distinct (operation, result) sequences",
+        "assumptions": ["values are within the range of their Rust types (i16/i32/i64) - the theorems carry these as hypotheses",
+                        "correlation-id wrap at 2^30 calls is outside the property's quantifier (inputs x configurations)"],
+    },
     "C03": {
         "obligations": ["C03_plain", "C03_wrapped", "C03_wrapped_inner", "C03_too_long"],
         "what": "Theorems: the model's message-set encoder (mirror of produce.rs:155-242: back-patched size and CRC, Option<&[u8]> encoding, per-partition wrapper) equals the specification encoder, and the specification's strict parser (exact sizes, magic 0, CRC-32 over magic..value, null<->-1, nothing left over) inverts it for every list of records whose sizes fit the 32-bit fields; with a codec the partition data is exactly one wrapper (attribute = codec id, null key, value = compressor output on the plain set). Correspondence + judge: real produce_messages with all payload shapes and codecs; every emitted partition set is parsed by Spec.parseMessageSet and wrappers are opened with the independent Lean inflate / snappy decoders (flate2 and snap themselves are parameters of the theorems).",
